@@ -21,7 +21,8 @@ import (
 // so a value copied into the wrong column or row by a table rebuild is recognisable. Exceptions kept
 // deliberately small: a foreign key column holds the value of the parent cell of the same row (so the
 // data satisfies the constraint), nullable columns are NULL in every third row (offset by the column
-// position), generated columns are not stored.
+// position; never in a column that is the parent key of a foreign key), generated columns are not
+// stored.
 func (s Schema) Cell(table, column string, row int) (lit string, null bool) {
 	return s.cell(table, column, row, 0)
 }
@@ -55,7 +56,7 @@ func (s Schema) cell(table, column string, row, depth int) (string, bool) {
 		}
 		return s.cell(f.RefTable, f.RefCols[k], row, depth+1)
 	}
-	if c.Null && (row+ci)%3 == 0 {
+	if c.Null && (row+ci)%3 == 0 && len(s.ReferencedBy(table, column, true)) == 0 {
 		return "NULL", true
 	}
 	n := ((ti+1)*100+ci+1)*1000 + row + 1
